@@ -67,6 +67,56 @@ def ensure_driver():
                        stdout=subprocess.DEVNULL, stderr=subprocess.DEVNULL)
 
 
+def extract_crate(src_dir, crate_name, tag):
+    """Compile an arbitrary harness crate (path-depending on the repository) with the driver and
+    return the path of its program dump (cached by the hash of the repository and of the harness)."""
+    ensure_driver()
+    h = hashlib.sha256()
+    h.update(cache_key().encode())
+    _hash_tree(h, src_dir, lambda r: r == "Cargo.toml" or r.startswith("src"))
+    key = tag + "-" + h.hexdigest()[:20]
+    d = os.path.join(CACHE, key)
+    out_file = os.path.join(d, crate_name + ".program.json")
+    if os.path.exists(out_file):
+        return out_file, True
+    os.makedirs(CACHE, exist_ok=True)
+    work = tempfile.mkdtemp(prefix="jsv-c-")
+    try:
+        out = os.path.join(work, "out")
+        os.makedirs(out)
+        rc = os.path.join(work, "crate")
+        shutil.copytree(src_dir, rc, ignore=shutil.ignore_patterns("target", "Cargo.lock"))
+        toml = open(os.path.join(rc, "Cargo.toml")).read().replace('path = "/repo"', 'path = "%s"' % REPO)
+        open(os.path.join(rc, "Cargo.toml"), "w").write(toml)
+        lock = os.path.join(REPO, "Cargo.lock")
+        if os.path.exists(lock):
+            shutil.copy(lock, os.path.join(rc, "Cargo.lock"))
+        env = dict(os.environ)
+        env.update({
+            "LD_LIBRARY_PATH": sysroot_lib() + ":" + env.get("LD_LIBRARY_PATH", ""),
+            "JSV_OUT": out,
+            "JSV_ROOTS_CRATE": crate_name,
+            "RUSTFLAGS": "-Zmir-opt-level=0 -Zalways-encode-mir -Awarnings",
+            "RUSTC_WRAPPER": DRIVER,
+            "CARGO_TARGET_DIR": os.path.join(work, "target"),
+            "CARGO_NET_OFFLINE": "true",
+        })
+        env.pop("RUSTC_WORKSPACE_WRAPPER", None)
+        p = subprocess.run(["cargo", "+nightly", "check", "--offline", "-j", "16"], cwd=rc, env=env, capture_output=True, text=True)
+        if p.returncode != 0:
+            sys.stderr.write(p.stderr[-4000:])
+            raise ExtractionError("harness crate %s does not compile against %s" % (crate_name, REPO))
+        src = os.path.join(out, crate_name + ".program.json")
+        if not os.path.exists(src):
+            raise ExtractionError("driver produced no program for %s" % crate_name)
+        os.makedirs(d, exist_ok=True)
+        shutil.move(src, out_file)
+        _prune()
+        return out_file, False
+    finally:
+        shutil.rmtree(work, ignore_errors=True)
+
+
 def extract(verbose=False):
     """Returns (facts_dir, info) where facts_dir holds json_syntax.items.json and jsvroots.program.json."""
     ensure_driver()
